@@ -11,6 +11,7 @@ are a parameter `T` with `T.OK`, as in C03's Proofs; Properties/C04.lean instant
 -/
 namespace Txdbus.Proto
 namespace WithMsg
+open Txdbus.Proto.Receive
 
 open Txdbus.Msg (Tables BodyCodec Call construct parseMessage wireCodec)
 
